@@ -202,7 +202,7 @@ func (h *c14Hist) materialise(env *Env) (*simrt.History, []*c14Key) {
 }
 
 func c14Gen(r *Run, rng *gen.Rng, corpus []string) *c14Hist {
-	gw := gen.NewWorld(rng.Sub(), gen.WorldOpts{MaxFiles: 4, StdPct: 3, AllowStd: true, Hostile: false, Decoys: rng.Range(1, 2), Corpus: corpus, CorpusPct: 10, SmallFeats: true})
+	gw := gen.NewWorld(rng.Sub(), gen.WorldOpts{MaxFiles: 4, StdPct: 6, AllowStd: true, Hostile: false, Decoys: rng.Range(1, 2), Corpus: corpus, CorpusPct: 10, SmallFeats: true})
 	h := &c14Hist{Versions: map[string][]string{}, Closures: map[string][]string{}, StdUsed: map[string][]string{}, Epoch: int64(rng.Intn(1 << 30))}
 	h.Progs = []string{gw.Main}
 	for k := rng.Range(1, 3); k > 0; k-- {
